@@ -26,7 +26,7 @@ class Table:
     """n rows; every data value is a unique id (stream_no*1000 + row), auxiliary columns are
     injective functions of the row (DESIGN §2.2)."""
 
-    def __init__(self, n, streams=("v1",), secs=None, with_z=True, with_pos=True, with_time=True) -> None:
+    def __init__(self, n, streams=("v1",), secs=None, with_z=True, with_pos=True, with_time=True, time_unit="ns") -> None:
         self.n = n
         self.streams = list(streams)
         self.secs = list(secs) if secs is not None else [T0 + 60 * i for i in range(n)]
@@ -36,11 +36,16 @@ class Table:
         self.z = np.array([5000.0 + r for r in range(n)])
         self.lat = np.array([-60.0 + r * 0.5 for r in range(n)])
         self.lon = np.array([10.0 + r * 0.25 for r in range(n)])
-        self.time = np.array(self.secs, dtype="int64").astype("datetime64[s]").astype("datetime64[ns]")
+        self.time_unit = time_unit
+        self.time = np.array(self.secs, dtype="int64").astype("datetime64[s]").astype(f"datetime64[{time_unit}]")
 
     def describe(self):
-        return {"n": self.n, "streams": self.streams, "secs_from_t0": [s - T0 for s in self.secs],
-                "with_z": self.with_z, "with_pos": self.with_pos, "with_time": self.with_time}
+        d = {"n": self.n, "streams": self.streams,
+             "secs_from_t0": [s - T0 for s in self.secs] if self.n <= 64 else f"<{self.n} rows: {[s - T0 for s in self.secs[:6]]} ...>",
+             "with_z": self.with_z, "with_pos": self.with_pos, "with_time": self.with_time}
+        if self.time_unit != "ns":
+            d["time_unit"] = self.time_unit
+        return d
 
     def rows_in(self, window):
         """The statement: rows with starting <= t < ending, an absent bound being open.  Without
@@ -60,6 +65,9 @@ class Table:
 def ts(sec, how="timestamp"):
     if sec is None:
         return None
+    if sec != int(sec) or not (-2 ** 33 < sec < 2 ** 33):
+        tsx = pd.Timestamp(int(round(sec * 1000)), unit="ms")  # fractional seconds / far dates
+        return tsx if how in ("timestamp", "dt64") else tsx.to_pydatetime() if how == "datetime" else tsx.isoformat()
     d = dt.datetime(1970, 1, 1) + dt.timedelta(seconds=int(sec))
     if how == "timestamp":
         return pd.Timestamp(d)
@@ -345,7 +353,7 @@ def build_config(contexts, how="timestamp"):
     return {"contexts": out}
 
 
-def window_layouts(tb: Table, rng=None):
+def window_layouts(tb: Table, rng=None, half=False):
     """All qualitatively different windows for a table: absent, closed, start-only, end-only,
     empty, all-covering, and bounds exactly on row times / between rows."""
     s = tb.secs
@@ -355,6 +363,8 @@ def window_layouts(tb: Table, rng=None):
         return out
     idx = range(n) if n <= 16 else sorted({0, 1, 2, n // 3, n // 2, n // 2 + 1, n - 3, n - 2, n - 1})
     cuts = sorted({s[0] - 5, s[0], s[-1], s[-1] + 1, s[-1] + 5, *(s[i] for i in idx), *(s[i] + 1 for i in idx)})
+    if half:  # bounds finer than the time axis' own resolution
+        cuts = sorted({*cuts, *(s[i] + 0.5 for i in idx), s[0] - 0.5})
     for a in [None, *cuts]:
         for b in [None, *cuts]:
             if a is None and b is None:
